@@ -215,7 +215,7 @@ impl ShardSplitter {
             None => return Ok(false),
         };
 
-        let next = match progress.next_phase() {
+        let mut next = match progress.next_phase() {
             Some(p) => p,
             None => {
                 // All phases done, just clean up the progress file
@@ -223,6 +223,21 @@ impl ShardSplitter {
                 return Ok(true);
             }
         };
+
+        if next == SplitPhase::Preparation {
+            // Interrupted between persisting the initial progress and recording the preparation:
+            // the split state may not have been stored. (Re)store it; the later phases need it.
+            self.metadata
+                .start_split(
+                    old_shard,
+                    progress.new_shards.clone(),
+                    progress.split_point.clone(),
+                )
+                .await?;
+            progress.completed_phase = Some(SplitPhase::Preparation);
+            self.persist_progress(&progress).await?;
+            next = SplitPhase::DualWrite;
+        }
 
         info!(
             "Resuming split for shard {} (fence={}) from phase {:?}",
@@ -303,11 +318,18 @@ impl ShardSplitter {
     async fn run_cutover(&self, progress: &mut SplitProgress) -> Result<()> {
         let old_shard = &progress.old_shard.clone();
 
-        let split_state = self
-            .metadata
-            .get_split_state(old_shard)
-            .await?
-            .ok_or_else(|| crate::Error::Internal("No split in progress".to_string()))?;
+        let split_state = match self.metadata.get_split_state(old_shard).await? {
+            Some(state) => state,
+            None if progress.shard_a_created
+                && progress.shard_b_created
+                && progress.old_shard_deactivated =>
+            {
+                // An interrupted attempt got as far as completing the split in metadata
+                // (which removes the split state) but not to recording the cutover.
+                return Ok(());
+            }
+            None => return Err(crate::Error::Internal("No split in progress".to_string())),
+        };
 
         if split_state.new_shards.len() != 2 {
             return Err(crate::Error::Internal(format!(
@@ -347,9 +369,7 @@ impl ShardSplitter {
                 min_time: old_metadata.min_time,
                 max_time: split_ts,
             };
-            self.metadata
-                .update_shard_metadata(&new_shard_a.shard_id, &new_shard_a, 0)
-                .await?;
+            self.create_new_shard(&new_shard_a).await?;
             progress.shard_a_created = true;
             self.persist_progress(progress).await?;
         }
@@ -368,9 +388,7 @@ impl ShardSplitter {
                 min_time: split_ts,
                 max_time: old_metadata.max_time,
             };
-            self.metadata
-                .update_shard_metadata(&new_shard_b.shard_id, &new_shard_b, 0)
-                .await?;
+            self.create_new_shard(&new_shard_b).await?;
             progress.shard_b_created = true;
             self.persist_progress(progress).await?;
         }
@@ -397,6 +415,26 @@ impl ShardSplitter {
             progress.fence_token, progress.new_shards[0], progress.new_shards[1]
         );
         Ok(())
+    }
+
+    /// Create a new shard of this split. An interrupted attempt may have created it already
+    /// without recording that in the progress file; the ids are unique to this split, so an
+    /// existing shard with the same key range is the one we wanted to create.
+    async fn create_new_shard(&self, shard: &ShardMetadata) -> Result<()> {
+        match self
+            .metadata
+            .update_shard_metadata(&shard.shard_id, shard, 0)
+            .await
+        {
+            Ok(()) => Ok(()),
+            Err(e @ crate::Error::StaleGeneration { .. }) => {
+                match self.metadata.get_shard_metadata(&shard.shard_id).await? {
+                    Some(existing) if existing.key_range == shard.key_range => Ok(()),
+                    _ => Err(e),
+                }
+            }
+            Err(e) => Err(e),
+        }
     }
 
     // ── Individual phase implementations ─────────────────────────────
